@@ -22,6 +22,19 @@ SHARD_TIMEOUT = {"quick": 1200, "thorough": 7200}
 KINDS = ["memory", "proxy(memory)", "memory.if_not_contains(ABC)", "memory.if_attribute_not_equal(ABC,abc)", "memory+memory",
          "memory.if_contains(ABC)+file", "file", "sql", "store_mem_nested", "none"]
 DEFAULTS = {"mlist": ["d"], "mdict": {"k": ["v"]}, "plain": "p"}
+# variables of kinds JSON has no form for (only where no cache has to write metadata as JSON)
+MEMORY_ONLY = ("memory", "proxy(memory)", "memory.if_not_contains(ABC)", "memory.if_attribute_not_equal(ABC,abc)", "memory+memory", "none")
+EXTRA_DEFAULTS = {"mset": {"s"}, "mtup": (["t"], "u")}
+EXTRA_QUERIES = ["one/mutvar-mset/getvar-mset", "one/getvar-mset", "ctxmut-mset/getvar-mset", "one/mutvar-mset/mutvar-mset/state_variable-mset",
+                 "one/mutvar-mtup/getvar-mtup", "one/getvar-mtup", "one/ctxmut-mtup/getvar-mtup"]
+
+
+def defaults_for(kind):
+    d = copy.deepcopy(DEFAULTS)
+    if kind in MEMORY_ONLY:
+        d.update(copy.deepcopy(EXTRA_DEFAULTS))
+    return d
+
 
 MUT_QUERIES = [
     "mk-list-2/push-a", "mk-list-2/push-a/push-b", "mk-dict-2/setkey-k-v", "mk-dict-1/setkey-k0-w/setkey-z-y",
@@ -33,6 +46,7 @@ MUT_QUERIES = [
     "one/sub-one~Ilet~_v1~_insub~Igetvar~_v1/getvar-v1", "mk-list-2/cat-~X~push-w~E/push-e",
     "mk-matrix-2/deepmut", "mk-matrix-2/ident", "mk-matrix-2/deepmut/deepmut-w", "mk-lod-2/deepmut/ident", "mk-lod-2/ident",
     "mk-nested/deepmut", "mk-matrix-3/push-a/deepmut",
+    "mk-tlist-2/deepmut", "mk-tlist-2/ident", "mk-tlist-2/deepmut/deepmut-w", "mk-tlist-1/deepmut/ident", "mk-tlist-2/ident/deepmut",
     "ctxmut-mlist/getvar-mlist", "one/ctxmut-mlist/getvar-mlist", "ctxmut-mdict/getvar-mdict", "one/ctxmut-mlist/ctxmut-mlist/ident",
 ]
 
@@ -100,8 +114,8 @@ def run_history(env, kind, events, scratch, viol, stats, rnd):
     if kind != "none":
         cache = Recorder(cachecfg.build(kind, scratch).cache)
     returned = []   # (state, data snapshot, metadata snapshot, step)
-    S._vars = copy.deepcopy(DEFAULTS)
-    pristine = copy.deepcopy(DEFAULTS)
+    S._vars = defaults_for(kind)
+    pristine = defaults_for(kind)
     keys = set()
     for step, e in enumerate(events):
         q = e["q"]
@@ -173,7 +187,7 @@ def run_shard(spec):
     from lqv import evalcache as E
     from lqv.gen.query import QGen
 
-    env = E.Env(default_vars=DEFAULTS)
+    env = E.Env(default_vars=defaults_for(spec["replay"]["kind"] if "replay" in spec else spec["kind"]))
     scratch = spec["scratch"]
     violations = {}
     samples = []
@@ -198,7 +212,7 @@ def run_shard(spec):
         for h in range(spec["n"]):
             stats["hist_id"] = "%s/%s.%d" % (kind, spec["rep"], h)
             stats["_mut_seen"] = False
-            pool = rnd.sample(MUT_QUERIES, 5)
+            pool = rnd.sample(MUT_QUERIES + (EXTRA_QUERIES if kind in MEMORY_ONLY else []), 5)
             fam = E.family(rnd, g)
             for q in pool:
                 fam += [q] + E.prefixes_of(q)[1:]
